@@ -70,6 +70,7 @@ Step(t, e) ==
     [] e.ev = "hrecv" -> [t0 EXCEPT !.recvs = @ \cup {[h |-> e.h, id |-> e.id, intact |-> e.intact, i |-> e.i]}]
     [] e.ev = "end" -> Judge(t0, e)
     [] e.ev = "panic" -> Viol(t0, e, "panic: " \o e.msg \o " at " \o e.loc)
+    [] e.ev = "hang" -> Viol(t0, e, "the networks do not fall silent: the scenario never ended: the code under test kept producing events without bound or stopped making progress (" \o e.why \o ")")
     [] OTHER -> t0
 Init == l = 1 /\ s = Init0
 Next == l <= Len(Rec) /\ s' = Step(s, Rec[l]) /\ l' = l + 1
